@@ -69,7 +69,10 @@ func Analyze(ctx context.Context, scope *ReferenceScope, view *View, fn parser.A
 		}
 
 		if _, ok := fn.Args[0].(parser.AllColumns); ok {
-			fn.Args[0] = parser.NewIntegerValue(1)
+			args := make([]parser.QueryExpression, len(fn.Args))
+			copy(args, fn.Args)
+			args[0] = parser.NewIntegerValue(1)
+			fn.Args = args
 		}
 	} else {
 		if err := udfn.CheckArgsLen(fn, fn.Name, len(fn.Args)-1); err != nil {
